@@ -878,6 +878,78 @@ class TIMachine(FormatMachine):
             self.durable[path]["partial"] = partial
         return "downgraded:" + ver
 
+    # ---- C05: a pre-productmd file written by somebody else (independent writer), with the spellings such files had ----
+    def op_ti_pre_productmd_synth(self, op):
+        """The file states a handful of facts in its [general] section.  Whatever else the conversion has to guess, a fact
+        the file STATES comes back as stated: family / version / arch / variant / timestamp, a packagedir or repository
+        that is present (an EMPTY packagedir means the tree root), the disc number (and the total, if given - a disc number
+        beyond the total is not the same fact).  The converted object is then written and must re-load identically."""
+        g = op["general"]
+        lines = ["[general]"] + ["%s = %s" % (k, g[k]) for k in sorted(g)]
+        for sec, table in sorted((op.get("sections") or {}).items()):
+            lines += ["", "[%s]" % sec] + ["%s = %s" % kv for kv in sorted(table.items())]
+        path = self.path(op)
+        self.fs.put(path, "\n".join(lines) + "\n")
+        CTX.fault("F8.older_format_on_disk")
+        new = self.new_obj()
+        via = op.get("via", "path")
+        try:
+            if via == "loads":
+                new.loads(self.fs.get(path).decode("utf-8"))
+            elif via == "handle":
+                with open(path, "r") as fo:
+                    new.load(fo)
+            else:
+                new.load(path)
+        except Exception as e:
+            if isinstance(e, HarnessError):
+                raise
+            raise Violation("C05", "C05.older_document_accepted", "older-document-rejected/treeinfo/pre-productmd-synth/%s" % exc_class(e), {"msg": str(e)[:160]})
+        self.count("C05", ["pre-productmd-synth", sorted(g), g.get("arch") == "src"])
+        src = g["arch"] == "src"
+        facts = [("family", new.release.name, g["family"]), ("version", new.release.version, g["version"]), ("arch", new.tree.arch, g["arch"]),
+                 ("variants", sorted(new.variants.variants), [g["variant"]]),
+                 ("timestamp", int(new.tree.build_timestamp), int(float(g["timestamp"])))]
+        v = new.variants.variants.get(g["variant"])
+        if v is not None:
+            if "packagedir" in g:
+                facts.append(("packagedir", v.paths.source_packages if src else v.paths.packages, g["packagedir"].rstrip("/") or "."))
+            if "repository" in g:
+                facts.append(("repository", v.paths.source_repository if src else v.paths.repository, g["repository"].rstrip("/") or "."))
+        if "discnum" in g:
+            facts.append(("discnum", new.media.discnum, int(g["discnum"])))
+        if "totaldiscs" in g:
+            facts.append(("totaldiscs", new.media.totaldiscs, int(g["totaldiscs"])))
+        for k, got, want in facts:
+            if got != want:
+                raise Violation("C05", "C05.upgrade_carries_same_facts", "upgrade-differs/treeinfo/pre-productmd-synth/%s" % k, {"got": got, "want": want})
+        if ("discnum" in g or "totaldiscs" in g) and new.media.discnum is not None and new.media.totaldiscs is not None \
+                and new.media.discnum > new.media.totaldiscs:
+            raise Violation("C05", "C05.upgrade_carries_same_facts", "upgrade-differs/treeinfo/pre-productmd-synth/disc-beyond-total",
+                            {"discnum": new.media.discnum, "totaldiscs": new.media.totaldiscs})
+        # written back as a current file, re-loaded identically, second write byte-identical
+        out = path + ".converted"
+        try:
+            new.dump(out)
+            first = self.fs.get(out)
+            again = self.new_obj()
+            again.load(out)
+            again.dump(out + "2")
+            second = self.fs.get(out + "2")
+        except Exception as e:
+            if isinstance(e, HarnessError):
+                raise
+            raise Violation("C05", "C05.upgraded_object_round_trips", "upgraded-object-unwritable/treeinfo/pre-productmd-synth/%s" % exc_class(e), {"msg": str(e)[:160]})
+        d = first_diff(self.observe(new), self.observe(again))
+        if d:
+            raise Violation("C05", "C05.upgraded_object_round_trips", "reload-after-upgrade-differs/treeinfo/pre-productmd-synth/%s" % diff_key(d), {"diff": d})
+        hdr = inimod.as_dict(first.decode("utf-8")).get("header", {})
+        if hdr.get("version") != self.CURRENT_VERSION or hdr.get("type") != self.HEADER_TYPE:
+            raise Violation("C05", "C05.written_as_current", "upgrade-written-with-wrong-header/treeinfo/pre-productmd-synth", {"header": hdr})
+        if not isinstance(new.tree.build_timestamp, float) and first != second:
+            raise Violation("C05", "C05.conversion_happens_once", "second-write-differs/treeinfo/pre-productmd-synth", {})
+        return "ok"
+
     # ---- C17: a pre-productmd reader given only the compatibility sections ---------------------------------------
     def op_ti_legacy_general(self, op):
         s = self.slot(op)
